@@ -3,3 +3,4 @@ import ReplayProofs.Lemmas.Bits
 import ReplayProofs.Lemmas.Codec
 import ReplayProofs.C03
 import ReplayProofs.C17
+import ReplayProofs.C16
